@@ -379,6 +379,23 @@ def window():
             steps += [{"e": "poll"}] * 40
             progs.append({"cfg": {"rx": 128, "tx": 1152, "ka": 0, "sei": 300, "client_id": b("win%d" % n), "name": "window-%d" % n},
                           "steps": steps, "connack": ck})
+    # the same with the carried exchanges in their PUBREL phase (PUBCOMPs held back across the reconnect): they occupy
+    # no stored-packet slot any more, so only the send quota stands between the application and an over-full window
+    for rm in (None, 20, 65535, 9):
+        for u in (3, 1):
+            n += 1
+            steps = [{"e": "publish", "qos": 2, "topic": b("h/%d" % i), "payload": b("u%d" % i), "props": []} for i in range(u)]
+            steps.append({"e": "hold", "on": True})
+            steps += [{"e": "poll"}] * u
+            ck = [] if rm is None else [{"id": 0x21, "n": rm, "s": [], "t": []}]
+            steps.append({"e": "reconnect", "connack": ck})
+            for i in range(8):
+                steps.append({"e": "publish", "qos": 1 + i % 2, "topic": b("h2/%d" % i), "payload": b("z"), "props": []})
+            steps += [{"e": "poll"}] * 4
+            steps.append({"e": "hold", "on": False})
+            steps += [{"e": "poll"}] * 40
+            progs.append({"cfg": {"rx": 128, "tx": 1152, "ka": 0, "sei": 300, "client_id": b("win%d" % n), "name": "window-%d" % n},
+                          "steps": steps, "connack": ck})
     return progs
 
 
